@@ -18,6 +18,8 @@ func checkC13(c *Ctx) {
 	c.Rule("C13-R2", "every force-dirty site reachable from Show lies behind resize()'s size-changed test or is a documented neighbour site")
 	c.Rule("C13-R3", "cell payload is written only from drawCell (writeString callers)")
 	c.Rule("C13-R4", "LockRegion(lock) calls LockCell only under lock==true and UnlockCell only under lock==false")
+	c.Rule("C13-R8", "Dirty answers false for a locked cell before it looks at anything else; unlocking force-dirties")
+	c.Expect("C13-R8", 3)
 	c.Rule("C13-R7", "the snapshot taken when a cell is marked clean is exactly what Dirty compares with (last* = curr* and nothing else), so an unchanged cell is clean at the next Show")
 	c.Expect("C13-R7", 6)
 	c.Rule("C13-R5", "the content-changed tests of CellBuffer do not tell a nil combining list from an empty one (the stored copy is always non-nil): reflect.DeepEqual on combining lists only under a non-zero length guard")
@@ -61,6 +63,7 @@ func checkC13(c *Ctx) {
 	c13ListCompare(c, p)
 	checkCleanMarkCallers(c, p, "C13-R1")
 	c.asRule("C08-R2", "C13-R7", func() { c08Pairs(c, p, cbMethods(p)) })
+	c.asRule("C08-R3", "C13-R8", func() { c08Lock(c, p, cbMethods(p)) })
 	{
 		ws := map[string]string{}
 		whole := ""
@@ -86,46 +89,7 @@ func checkC13(c *Ctx) {
 		c.Undecided("C13-R4", "LockRegion", "-", "not found")
 		return
 	}
-	// the region walked is exactly [x, x+width) x [y, y+height): loop variables start at the
-	// arguments and stop below argument+extent (the cell functions ignore what is off-screen)
-	{
-		okRange, nLoops := true, 0
-		detail := ""
-		for _, b := range lr.Blocks {
-			for _, in := range b.Instrs {
-				phi, ok := in.(*ssa.Phi)
-				if !ok || len(phi.Edges) != 2 {
-					continue
-				}
-				var init ssa.Value
-				for i, e := range phi.Edges {
-					if !b.Dominates(b.Preds[i]) {
-						init = e
-					}
-				}
-				// its bound
-				for _, r := range referrers(phi) {
-					bo, ok := r.(*ssa.BinOp)
-					if !ok || bo.Op != token.LSS || bo.X != ssa.Value(phi) {
-						continue
-					}
-					nLoops++
-					add, isAdd := bo.Y.(*ssa.BinOp)
-					prm, isPrm := derefCell(init).(*ssa.Parameter)
-					if !isPrm || !isAdd || add.Op != token.ADD || derefCell(add.X) != ssa.Value(prm) {
-						okRange = false
-						detail += fmt.Sprintf("loop from %s below %s; ", valName(init), valName(bo.Y))
-						continue
-					}
-					if _, isP2 := derefCell(add.Y).(*ssa.Parameter); !isP2 {
-						okRange = false
-						detail += "extent is not the argument; "
-					}
-				}
-			}
-		}
-		c.Check(okRange && nLoops == 2, "C13-R4", "LockRegion:range", p.pos(lr.Pos()), fmt.Sprintf("%d loops, each from the origin argument to origin+extent %s", nLoops, detail))
-	}
+	lockRegionRange(c, p, lr, "C13-R4")
 	for _, want := range []struct {
 		callee string
 		val    string
@@ -397,4 +361,48 @@ func c13ListCompare(c *Ctx, p *Prog) {
 	if n == 0 {
 		c.Trivial("C13-R5", "list-compare", "-", "no reflect.DeepEqual on combining lists")
 	}
+}
+
+// lockRegionRange: the region walked is exactly [x, x+width) x [y, y+height): loop variables
+// start at the arguments and stop below argument+extent (the cell functions ignore what is
+// off-screen).  A clamped origin shifts the region instead of clipping it.
+func lockRegionRange(c *Ctx, p *Prog, lr *ssa.Function, rule string) {
+
+		okRange, nLoops := true, 0
+		detail := ""
+		for _, b := range lr.Blocks {
+			for _, in := range b.Instrs {
+				phi, ok := in.(*ssa.Phi)
+				if !ok || len(phi.Edges) != 2 {
+					continue
+				}
+				var init ssa.Value
+				for i, e := range phi.Edges {
+					if !b.Dominates(b.Preds[i]) {
+						init = e
+					}
+				}
+				// its bound
+				for _, r := range referrers(phi) {
+					bo, ok := r.(*ssa.BinOp)
+					if !ok || bo.Op != token.LSS || bo.X != ssa.Value(phi) {
+						continue
+					}
+					nLoops++
+					add, isAdd := bo.Y.(*ssa.BinOp)
+					prm, isPrm := derefCell(init).(*ssa.Parameter)
+					if !isPrm || !isAdd || add.Op != token.ADD || derefCell(add.X) != ssa.Value(prm) {
+						okRange = false
+						detail += fmt.Sprintf("loop from %s below %s; ", valName(init), valName(bo.Y))
+						continue
+					}
+					if _, isP2 := derefCell(add.Y).(*ssa.Parameter); !isP2 {
+						okRange = false
+						detail += "extent is not the argument; "
+					}
+				}
+			}
+		}
+		c.Check(okRange && nLoops == 2, rule, "LockRegion:range", p.pos(lr.Pos()), fmt.Sprintf("%d loops, each from the origin argument to origin+extent %s", nLoops, detail))
+	
 }
